@@ -31,6 +31,8 @@ def tasks(tier, params):
     out.append(('rr.UNKNOWN', {'kind': 'rr', 'code': 65280, 'K': K}))
     out.append(('opt.first', {'kind': 'opt', 'first': True}))
     out.append(('opt.last', {'kind': 'opt', 'first': False}))
+    out.append(('opt.first3', {'kind': 'opt', 'first': True, 'extra': True}))
+    out.append(('opt.mid3', {'kind': 'opt', 'first': None, 'extra': True}))
     return out
 
 
@@ -63,10 +65,16 @@ def run_task(prog, tid, params, tier):
             m += be_bytes(mk('u16', rdlen)) + [sym('rd%d' % i, 'u8') for i in range(rdlen)]
             msgs.append(m)
     else:
-        for nopt in (0, 4, 5):
+        for nopt in ((0,) if params.get('extra') else (0, 4, 5)):
             a_rec = [mk('u8', 0)] + be_bytes(mk('u16', 1)) + be_bytes(mk('u16', 1)) + be_bytes(sym('ttla', 'u32')) + be_bytes(mk('u16', 4)) + be_bytes(sym('addr', 'u32'))
+            b_rec = [mk('u8', 0)] + be_bytes(mk('u16', 1)) + be_bytes(mk('u16', 1)) + be_bytes(sym('ttlb', 'u32')) + be_bytes(mk('u16', 4)) + be_bytes(sym('addrb', 'u32'))
             opt = [mk('u8', 0)] + be_bytes(mk('u16', 41)) + be_bytes(sym('udp', 'u16')) + be_bytes(sym('ottl', 'u32')) + \
                 be_bytes(mk('u16', nopt)) + [sym('o%d' % i, 'u8') for i in range(nopt)]
+            if params.get('extra'):
+                # three additional records: the two A records must keep their wire order whatever the OPT position
+                hdr = be_bytes(sym('id', 'u16')) + [mk('u8', 0), mk('u8', 0)] + be_bytes(mk('u16', 0)) * 3 + be_bytes(mk('u16', 3))
+                msgs.append(hdr + (opt + a_rec + b_rec if params['first'] else a_rec + opt + b_rec))
+                continue
             hdr = be_bytes(sym('id', 'u16')) + [sym('f0', 'u8'), sym('f1', 'u8')] + be_bytes(mk('u16', 0)) * 3 + be_bytes(mk('u16', 2))
             msgs.append(hdr + (opt + a_rec if params['first'] else a_rec + opt))
     for msg in msgs:
@@ -106,6 +114,12 @@ def run_task(prog, tid, params, tier):
                 return None
             agg['covers']['accepted'] += 1
             p = o['p']
+            if kind == 'opt' and params.get('extra'):
+                ad = list(p.f[4].items)
+                a0 = z3.BitVec('addr', 32)
+                b0 = z3.BitVec('addrb', 32)
+                if len(ad) != 2 or res.ctx.check(z3.Or(ad[0].f[3].f[0].f[0].z() != a0, ad[1].f[3].f[0].f[0].z() != b0)):
+                    return viol('order', 'the additional records left after lifting the OPT record out are not in their wire order')
             for name in ('plain', 'comp'):
                 if o[name].var != 'Ok':
                     return viol('build-' + name, 'serialising an accepted packet fails (%s)' % name)
